@@ -22,7 +22,7 @@ import (
 // under the cooperative scheduler, with the process dying at a drawn step;
 // then a restart.
 type SchedCase struct {
-	Tasks     [][]int `json:"tasks"`      // per publisher: event types (1 = subscribed type, 3 = other)
+	Tasks     [][]int `json:"tasks"` // per publisher: event types (1 = subscribed type, 3 = other)
 	Schedule  []int   `json:"schedule"`
 	CrashStep int     `json:"crash_step"` // the process dies before this scheduling decision (0 = never)
 }
